@@ -14,7 +14,7 @@ ASAN  := $(COMMON) -O1 -fsanitize=address -fno-omit-frame-pointer -DSIM_BUILD_NA
 TLS   := $(COMMON) -O1 -DRLBOX_EMBEDDER_PROVIDES_TLS_STATIC_VARIABLES -DSIM_BUILD_NAME='"tls"'
 LIBS := -lpthread -ldl
 
-TARGETS := apptoken mem mem.p64 mem.pvoid callback callback.tls invoke toctou toctou.asan bulk bulk.asan bulk.nogrant transition.hooks transition.inonly transition.outonly transition.timing transition.both threads threads.tsan threads.tls
+TARGETS := apptoken abi abi.wide mem mem.p64 mem.pvoid callback callback.tls invoke toctou toctou.asan bulk bulk.asan bulk.nogrant transition.hooks transition.inonly transition.outonly transition.timing transition.both threads threads.tsan threads.tls
 
 all: $(addprefix $(B)/,$(TARGETS))
 
@@ -69,6 +69,9 @@ $(B)/threads.tsan: worlds/threads.cpp $(B)/sched.clang.o $(GUESTSO) $(HDRS) $(SI
 
 $(B)/mem.p64: worlds/mem.cpp $(HDRS) $(SIMH) | $(B)
 	$(CXX) $(PLAIN) -DSIM_PTR_T=uint64_t -DSIM_BUILD_NAME='"p64"' $< -o $@ $(LIBS)
+
+$(B)/abi.wide: worlds/abi.cpp $(HDRS) $(SIMH) | $(B)
+	$(CXX) $(PLAIN) -DSIM_WIDE_INT -DSIM_BUILD_NAME='"wide"' $< -o $@ $(LIBS)
 
 $(B)/mem.pvoid: worlds/mem.cpp $(HDRS) $(SIMH) | $(B)
 	$(CXX) $(PLAIN) -DSIM_PTR_T=uint64_t -DSIM_PTR_AS_POINTER -DSIM_BUILD_NAME='"pvoid"' $< -o $@ $(LIBS)
